@@ -220,7 +220,7 @@ def matrix_one(sid, props, tier):
         rc, o = sh(["git", "apply", os.path.join(d, "patch.diff")], cwd=wt)
         if rc != 0:
             return {"error": "patch does not apply: " + o}
-        shutil.copytree(os.path.join(ROOT, "harness"), hz)
+        shutil.copytree(os.environ.get("VERIF_SEED_HARNESS", os.path.join(ROOT, "harness")), hz, ignore=shutil.ignore_patterns(".build"))
         sh(["go", "mod", "edit", "-replace", "github.com/sahandsafizadeh/qeep=" + wt], cwd=hz)
         os.makedirs(out, exist_ok=True)
         env = dict(ENV, VERIF_DEV_HARNESS=hz, VERIF_DEV_OUT=out)
@@ -262,14 +262,20 @@ def cmd_matrix(args):
             ids.append(args[i]); i += 1
     if not ids:
         ids = sorted(d for d in os.listdir(SEEDED) if os.path.isdir(os.path.join(SEEDED, d)))
-    resf = os.path.join(SEEDED, "matrix.json")
+
+    def props_of(sid):
+        if props == ["own"]:
+            with open(os.path.join(SEEDED, sid, "meta.json")) as f:
+                return [json.load(f)["property"]]
+        return props
+    resf = os.environ.get("VERIF_SEED_RESULTS", os.path.join(SEEDED, "matrix.json"))
     try:
         with open(resf) as f:
             results = json.load(f)
     except (OSError, ValueError):
         results = {}
     with ThreadPoolExecutor(max_workers=jobs) as ex:
-        futs = {sid: ex.submit(matrix_one, sid, props, tier) for sid in ids}
+        futs = {sid: ex.submit(matrix_one, sid, props_of(sid), tier) for sid in ids}
         for sid, fu in futs.items():
             r = fu.result()
             results.setdefault(sid, {}).update(r)
